@@ -270,9 +270,14 @@ func (h Header) sortedKeyValues() (kvs []keyValues, hs *headerSorter) {
 const (
 	// maxLineLength 一行（不含行结束符）的最大长度
 	maxLineLength = 16 * 1024
+	// maxBodyLength Content-Length 允许的最大值
+	maxBodyLength = 1024 * 1024
 )
 
-var errLineTooLong = errors.New("rtsp: line over the maximum length")
+var (
+	errLineTooLong  = errors.New("rtsp: line over the maximum length")
+	errBodyTooLarge = errors.New("rtsp: Content-Length over the maximum length")
+)
 
 // readLine 读取一行
 func readLine(r *bufio.Reader) (string, error) {
@@ -296,6 +301,39 @@ func readLine(r *bufio.Reader) (string, error) {
 		}
 	}
 	return string(line), nil
+}
+
+// contentLength 返回头部声明的 Body 长度；
+// 没有声明、不是数字或为负数时返回 0；超过 maxBodyLength 返回错误
+func (h Header) contentLength() (int, error) {
+	fv := h.get(FieldContentLength)
+	n, err := strconv.ParseInt(fv, 10, 64)
+	if err != nil {
+		if ne, ok := err.(*strconv.NumError); ok && ne.Err == strconv.ErrRange {
+			return 0, errBodyTooLarge
+		}
+		return 0, nil
+	}
+	if n > maxBodyLength {
+		return 0, errBodyTooLarge
+	}
+	if n < 0 {
+		return 0, nil
+	}
+	return int(n), nil
+}
+
+// readBody 根据头部的 Content-Length 读取 Body
+func readBody(r *bufio.Reader, h Header) (string, error) {
+	cl, err := h.contentLength()
+	if err != nil || cl == 0 {
+		return "", err
+	}
+	body := make([]byte, cl)
+	if _, err = io.ReadFull(r, body); err != nil {
+		return "", err
+	}
+	return string(body), nil
 }
 
 var headerNewlineToSpace = strings.NewReplacer("\n", " ", "\r", " ")
